@@ -15,6 +15,7 @@ import Driver.Macro
 import Driver.Decomp
 import Driver.SsbsText
 import Driver.DecompSw
+import Driver.DecompLp
 open Lean Drv
 
 /-- dispatch on the prefix of "op" -/
@@ -38,6 +39,7 @@ def dispatch (j : Json) : R Json := do
   | "decomp" => DecompD.handle op j
   | "ssbstext" => SsbsTextD.handle op j
   | "decompsw" => DecompSwD.handle op j
+  | "decomplp" => DecompLpD.handle op j
   | _ => throw s!"unknown op {op}"
 
 partial def loop (h : IO.FS.Stream) (out : IO.FS.Stream) : IO Unit := do
